@@ -46,7 +46,12 @@ pub struct HistOut {
 }
 
 fn member(n: usize, namesakes: bool) -> WId {
-    // namesakes: the members share node id and generation and differ by their address only (still distinct ids)
+    // namesakes: the members share node id and generation and differ by their address only (still distinct ids);
+    // the first of them is moreover a namesake of the OBSERVING node "r" (an earlier / later incarnation of it, or a
+    // homonym elsewhere): another member like any other
+    if namesakes && n == 0 {
+        return WId { node_id: "r".to_string(), generation: 1, addr: addr(9100) };
+    }
     WId { node_id: if namesakes { "x".to_string() } else { format!("x{n}") }, generation: 0, addr: addr(9100 + n as u16) }
 }
 
@@ -148,6 +153,26 @@ impl Rig {
             }
         }
         self.out.c.inc("ready_key_writes_delivered");
+    }
+
+    /// A relayed delta that rebuilds our copy of the member from scratch (its owner collected tombstones we never saw):
+    /// data, not a life sign.
+    fn reset_delta(&mut self, i: usize) {
+        self.step += 1;
+        let id = cid(&self.members[i]);
+        if self.main.cc.node_state(&id).is_none() || self.twin.cc.node_state(&id).is_none() {
+            return;
+        }
+        let gc = self.ready_ver[i] + 3;
+        self.ready_ver[i] = gc + 1;
+        let ops = vec![crate::codec::WOp::Node { id: self.members[i].clone(), last_gc: gc, from: 0 }, crate::codec::WOp::Kv { key: "READY".into(), value: "true".into(), version: gc + 1, status: 0 }];
+        let bytes = ack_bytes(&ops);
+        for node in [&mut self.main, &mut self.twin] {
+            if let Err(p) = catch(|| feed(&mut node.cc, &bytes)) {
+                self.out.findings.push(Finding::new(&["C09"], "fd.panic", format!("{}: processing a reset delta panicked: {p}", self.ctx)));
+            }
+        }
+        self.out.c.inc("reset_deltas_delivered");
     }
 
     /// The external catch-up entry point is no heartbeat: it must not count as evidence either (same call on both nodes).
@@ -344,7 +369,7 @@ pub async fn random_history(seed: u64, i: u64, max_events: usize, allow_catchup:
     let nm = rng.random_range(1..=3);
     // one history in six: members that differ by their address only; one in five: heartbeat values spread over the
     // whole u64 range (jumps of 2^62 / 2^63), so that "lower" can be lower by more than half the range
-    let namesakes = nm > 1 && rng.random_range(0..6) == 0;
+    let namesakes = rng.random_range(0..6) == 0;
     let wide = rng.random_range(0..5) == 0;
     // one history in five: the node is configured with the extra liveness predicate READY == "true"; the members' READY
     // key is written now and then (or never)
@@ -371,7 +396,10 @@ pub async fn random_history(seed: u64, i: u64, max_events: usize, allow_catchup:
         };
         tokio::time::advance(dt).await;
         let r = rng.random_range(0..100);
-        if predicate && !with_catchup && r >= 95 {
+        if !with_catchup && (92..95).contains(&r) && i % 3 == 0 {
+            let m = rng.random_range(0..nm);
+            rig.reset_delta(m);
+        } else if predicate && !with_catchup && r >= 95 {
             let m = rng.random_range(0..nm);
             let ready = rng.random_bool(0.5);
             rig.set_ready(m, ready);
